@@ -127,7 +127,9 @@ fn native_source(st: &St, k: u8, src: &J) -> csl::NativeScriptSource {
 fn plutus_witness(st: &St, w: &J, tag: &csl::RedeemerTag) -> csl::PlutusWitness {
     let sid = w["s"].as_u64().unwrap() as u8;
     let red = redeemer(tag, w["rid"].as_u64().unwrap(), &w["ex"]);
-    let src = plutus_source(st, sid, &w["script"]);
+    let mut src = plutus_source(st, sid, &w["script"]);
+    // "req": k - the caller annotates THIS use of the script with a required signer (the same script may be used without it elsewhere)
+    if let Some(k) = w.get("req").and_then(|x| x.as_u64()) { let mut ks = csl::Ed25519KeyHashes::new(); ks.add(&mk::gkeyhash(k as u8)); src.set_required_signers(&ks); }
     let d = &w["datum"];
     if d.as_str() == Some("wit") { csl::PlutusWitness::new_with_ref(&src, &csl::DatumSource::new(&pdata(w["dn"].as_u64().unwrap_or(0))), &red) }
     else if let Some(u) = d.get("ref") { csl::PlutusWitness::new_with_ref(&src, &csl::DatumSource::new_ref_input(&st.env[&u.as_u64().unwrap()].input), &red) }
@@ -193,12 +195,14 @@ fn apply(st: &mut St, op: &J) -> Result<Map<String, J>, csl::JsError> {
         "AddPlutusInput" => {
             let u = op["u"].as_u64().unwrap();
             let w = plutus_witness(st, &op["w"], &csl::RedeemerTag::new_spend());
+            if let Some(k) = op["w"].get("req").and_then(|x| x.as_u64()) { st.script_signers.push(k as u8); }
             let x = &st.env[&u];
             if st.selected { st.tb.add_plutus_script_input(&w, &x.input, &x.value); }
             else { st.inputs.add_plutus_script_input(&w, &x.input, &x.value); st.tb.set_inputs(&st.inputs); }
             let sid = op["w"]["s"].as_u64().unwrap() as u8;
             res.insert("attach".into(), json!([{"rid": op["w"]["rid"], "purpose": 0, "item": jbytes(&x.input.to_bytes()), "sh": jbytes(&pscript(sid).hash().to_bytes()),
-                "lang": pscript(sid).language_version().kind() as u64 + 1, "db": jbytes(&pdata(match op["w"]["datum"].get("ref") { Some(_) => 777, None => op["w"]["dn"].as_u64().unwrap_or(0) }).to_bytes())}]));
+                "lang": pscript(sid).language_version().kind() as u64 + 1, "db": jbytes(&pdata(match op["w"]["datum"].get("ref") { Some(_) => 777, None => op["w"]["dn"].as_u64().unwrap_or(0) }).to_bytes()),
+                "req": match op["w"].get("req").and_then(|x| x.as_u64()) { Some(k) => jbytes(&mk::gkeyhash(k as u8).to_bytes()), None => json!([]) }}]));
         }
         "AddAny2Input" => {
             // input locked by any-of(k, k+1); the caller declares which of the two keys will sign for THIS input
@@ -231,7 +235,24 @@ fn apply(st: &mut St, op: &J) -> Result<Map<String, J>, csl::JsError> {
             let x = &st.env[&op["u"].as_u64().unwrap()];
             match op.get("size").and_then(|v| v.as_u64()) { Some(n) => st.tb.add_script_reference_input(&x.input, n as usize), None => st.tb.add_reference_input(&x.input) }
         }
-        "AddExtraDatum" => st.tb.add_extra_witness_datum(&pdata(op["n"].as_u64().unwrap())),
+        // "alt": the same value in another encoding (non-minimal integer head) - another datum with another hash
+        "AddExtraDatum" => { let n = op["n"].as_u64().unwrap();
+            if op.get("alt").and_then(|x| x.as_bool()) == Some(true) {
+                let b: Vec<u8> = if n < 256 { vec![0x19, 0, n as u8] } else { let mut v = vec![0x1b]; v.extend(n.to_be_bytes()); v };
+                st.tb.add_extra_witness_datum(&csl::PlutusData::from_bytes(b).map_err(|e| csl::JsError::from_str(&format!("{:?}", e)))?)
+            } else { st.tb.add_extra_witness_datum(&pdata(n)) } }
+        // a key-locked output offered as a Plutus-script input together with a script witness: the builder has to refuse it
+        "OfferKeyUtxoAsPlutus" => {
+            let u = op["u"].as_u64().unwrap();
+            let w = plutus_witness(st, &op["w"], &csl::RedeemerTag::new_spend());
+            let x = &st.env[&u];
+            let o = csl::TransactionOutput::new(&x.addr, &x.value);
+            let r = st.inputs.add_plutus_script_utxo(&csl::TransactionUnspentOutput::new(&x.input, &o), &w);
+            match r {
+                Ok(()) => { st.tb.set_inputs(&st.inputs); st.inputs_builder_signers.insert(u, owner_of(&x.addr_spec)); res.insert("accepted".into(), J::Bool(true)); }
+                Err(_) => { st.inputs.add_regular_input(&x.addr, &x.input, &x.value)?; st.tb.set_inputs(&st.inputs); st.inputs_builder_signers.insert(u, owner_of(&x.addr_spec)); res.insert("accepted".into(), J::Bool(false)); }
+            }
+        }
         "CalcScriptDataHash" => st.tb.calc_script_data_hash(&cost_models(&op["langs"]))?,
         "SetVotes" => {
             let mut vb = csl::VotingBuilder::new();
@@ -478,7 +499,31 @@ pub fn run_one(out: &mut Out, sc: usize, s: &J) {
     let rr = &s["rerun"];
     let mut s2 = s.clone();
     s2.as_object_mut().unwrap().remove("rerun");
-    if let Some(k) = rr.get("max_tx").and_then(|x| x.as_u64()) {
+    if let Some(d) = rr.get("change_edge").and_then(|x| x.as_i64()) {
+        // the coin of the LAST output (change) aimed at its own minimum + d lovelace: the decisions "is there room for one more
+        // change output / is the leftover burnt or folded in" are taken exactly at the edge (the library's min-ADA figure is used
+        // for aiming only). The first UTxO gives up the difference.
+        let outs = tx.body().outputs();
+        if outs.len() == 0 { return; }
+        let last = outs.get(outs.len() - 1);
+        let dc = csl::DataCost::new_coins_per_byte(&csl::BigNum::from(s["pp"]["cpb"].as_u64().unwrap_or(4310)));
+        let m: u64 = match csl::min_ada_for_output(&last, &dc) { Ok(x) => x.into(), Err(_) => return };
+        let c: u64 = last.amount().coin().into();
+        let target = (m as i64 + d).max(0) as u64;
+        if c <= target { return; }
+        let give = c - target;
+        let c0 = u64_of(&s2["utxo"][0]["value"]["coin_n"]);
+        if c0 <= give + 1_000_000 { return; }
+        s2["utxo"][0]["value"]["coin_n"] = jn(c0 - give);
+        run_pass(out, sc, &s2);
+    } else if let Some(k) = rr.get("max_val").and_then(|x| x.as_u64()) {
+        // max_value_size just below the largest value the first transaction carries
+        let outs = tx.body().outputs();
+        let vmax = (0..outs.len()).map(|i| outs.get(i).amount().to_bytes().len()).max().unwrap_or(0);
+        if vmax < 40 { return; }
+        s2["pp"]["maxval"] = json!(vmax as u64 - 1 - k);
+        run_pass(out, sc, &s2);
+    } else if let Some(k) = rr.get("max_tx").and_then(|x| x.as_u64()) {
         s2["pp"]["maxtx"] = json!((signed_len as u64).saturating_sub(1 + k).max(1));
         run_pass(out, sc, &s2);
     } else if let Some(pm) = rr.get("fixed_fee").and_then(|x| x.as_u64()) {
@@ -595,7 +640,9 @@ fn rvalue(rng: &mut Rng, coin: u64, assets: u64) -> J {
 pub fn gen(rng: &mut Rng) -> J {
     let width_coin = |rng: &mut Rng| -> u64 { match rng.below(6) { 0 => 1_000_000 + rng.below(3_000_000), 1 => 65_536 * 16 + rng.below(100), 2 => (1u64 << 32) + rng.below(2_000_000) - 1_000_000,
         3 => 5_000_000_000 + rng.below(1000), 4 => 2_000_000 + rng.below(400_000), _ => 1_000_000 + rng.below(100_000_000) } };
-    let pp = json!({"a": 44, "b": 155381, "cpb": *rng.pick(&[4310u64, 4310, 4310, 1, 0, 34482]), "maxval": *rng.pick(&[5000u64, 5000, 500, 200]), "maxtx": *rng.pick(&[16384u64, 16384, 16384, 4000, 1500, 900, 600]),
+    // coins-per-byte also at values where the min-ADA of an ordinary output sits at a coin-width boundary (2^16 around 200..283 per byte)
+    let cpb = match rng.below(8) { 0 => 1, 1 => 0, 2 => 34482, 3 => 200 + rng.below(84), _ => 4310 };
+    let pp = json!({"a": 44, "b": 155381, "cpb": cpb, "maxval": *rng.pick(&[5000u64, 5000, 500, 200]), "maxtx": *rng.pick(&[16384u64, 16384, 16384, 4000, 1500, 900, 600]),
                     "kd_n": jn(2_000_000), "pd_n": jn(500_000_000), "prefer_pure_change": rng.chance(1, 4), "no_burn": rng.chance(1, 4)});
     let nu = 1 + rng.below(5);
     let mut utxo = vec![];
@@ -615,9 +662,19 @@ pub fn gen(rng: &mut Rng) -> J {
     if mode == 3 { for u in 1..=nu { if rng.chance(1, 2) { ops.push(json!({"op": "AddInput", "u": u})); } } }
     let no = rng.below(3);
     for _ in 0..no {
-        let oc = 1_000_000 + rng.below(2_000_000);
+        // mostly small pure-ADA outputs; sometimes asset bundles (also large ones) and coins of every width
+        let heavy = rng.chance(1, 6);
+        let oc = if heavy { width_coin(rng) } else { 1_000_000 + rng.below(2_000_000) };
+        let ona = if heavy { match rng.below(3) { 0 => 1 + rng.below(4), 1 => 20 + rng.below(40), _ => 0 } } else { 0 };
         let mut o = json!({"op": "AddOutput", "to": {"kind": *rng.pick(&["ent", "base", "byron"]), "k": 10 + rng.below(3)},
-                           "value": rvalue(rng, oc, 0)});
+                           "value": rvalue(rng, oc, ona)});
+        // what the output asks for is available: the first UTxO holds the same assets (and the coin)
+        if heavy {
+            let extra = o["value"]["assets"].as_array().cloned().unwrap_or_default();
+            utxo[0]["value"]["assets"].as_array_mut().unwrap().extend(extra);
+            let c0 = u64_of(&utxo[0]["value"]["coin_n"]);
+            utxo[0]["value"]["coin_n"] = jn(c0.saturating_add(oc));
+        }
         match rng.below(5) { 0 => { o["datum"] = json!({"hash": rng.below(100)}); } 1 => { o["datum"] = json!({"inline": rng.below(100000)}); } _ => {} }
         ops.push(o);
     }
@@ -712,11 +769,12 @@ pub fn gen(rng: &mut Rng) -> J {
         ops.push(json!({"op": "AddChange", "to": to}));
         // the caller keeps working on the builder after balancing succeeded: whatever a validating build still produces must obey the rules
         if rng.chance(1, 7) {
-            match rng.below(5) {
+            match rng.below(6) {
                 0 => ops.push(json!({"op": "SetCerts", "certs": []})),
                 1 => ops.push(json!({"op": "SetCerts", "certs": [{"k": 0, "g": true, "cred": {"k": 6}, "cred2": {"k": 8}, "pool": 21, "coin_n": jn(2_000_000)}]})),
                 2 => ops.push(json!({"op": "SetWithdrawals", "wds": [{"k": 6, "amt_n": jn(1 + rng.below(900_000))}]})),
                 3 => ops.push(json!({"op": "AddOutput", "to": {"kind": "ent", "k": 12}, "value": {"coin_n": jn(1_200_000), "assets": []}})),
+                4 => ops.push(json!({"op": "SetFee", "n": jn(150_000 + rng.below(200_000))})),
                 _ => ops.push(json!({"op": "AddInput", "u": 1 + rng.below(nu)})),
             }
         }
@@ -725,7 +783,7 @@ pub fn gen(rng: &mut Rng) -> J {
     ops.push(json!({"op": "Build"}));
     if rng.chance(1, 4) { ops.push(json!({"op": "BuildAgain"})); }
     let mut scn = json!({"pp": pp, "utxo": utxo, "ops": ops});
-    match rng.below(12) { 0 => { scn["rerun"] = json!({"max_tx": rng.below(3)}); } 1 => { scn["rerun"] = json!({"fixed_fee": rng.below(1001)}); } _ => {} }
+    match rng.below(12) { 0 => { scn["rerun"] = json!({"max_tx": rng.below(3)}); } 1 => { scn["rerun"] = json!({"fixed_fee": rng.below(1001)}); } 2 => { scn["rerun"] = json!({"max_val": rng.below(4)}); } 3 | 4 => { scn["rerun"] = json!({"change_edge": rng.below(8000) as i64 - 2000}); } _ => {} }
     scn
 }
 
@@ -774,7 +832,9 @@ pub fn gen_plutus(rng: &mut Rng) -> J {
         let datum = match dk { 0 => { e["datum"] = json!({"hash": dn}); json!("wit") } 1 => { e["datum"] = json!({"inline": dn}); json!("none") } _ => { e["datum"] = json!({"hash": 777}); json!({"ref": datum_ref}) } };
         let u = new_u(&mut utxo, e, rng);
         rid += 1;
-        ops.push(json!({"op": "AddPlutusInput", "u": u, "w": {"s": sid, "rid": rid, "script": src[&sid], "datum": datum, "dn": dn, "ex": ex(rng)}}));
+        let mut w = json!({"s": sid, "rid": rid, "script": src[&sid], "datum": datum, "dn": dn, "ex": ex(rng)});
+        if rng.chance(1, 4) { w["req"] = json!(17 + rng.below(3)); }
+        ops.push(json!({"op": "AddPlutusInput", "u": u, "w": w}));
     }
     let mut fixups: Vec<J> = vec![];
     if rng.chance(1, 6) {
@@ -852,10 +912,20 @@ pub fn gen_plutus(rng: &mut Rng) -> J {
     if rng.chance(1, 5) { ops.push(json!({"op": "AddExtraDatum", "n": 900})); }
     if rng.chance(1, 4) { ops.push(json!({"op": "AddRequiredSigner", "k": 1 + rng.below(4)})); }
     if rng.chance(1, 4) { ops.push(json!({"op": "AddRefInput", "u": datum_ref})); }
+    // an extra datum equal in value to a datum already in play, in another encoding
+    if rng.chance(1, 5) { ops.push(json!({"op": "AddExtraDatum", "n": *rng.pick(&[500u64, 501, 502, 900]), "alt": true})); }
+    // a key-locked output (every address kind) offered as a script input
+    if rng.chance(1, 6) {
+        let ku = new_u(&mut utxo, json!({"addr": {"kind": *rng.pick(&["ent", "base", "ptr"]), "k": 1 + rng.below(3)}, "value": {"coin_n": jn(2_500_000), "assets": []}}), rng);
+        let sid = 1 + rng.below(4);
+        ops.push(json!({"op": "OfferKeyUtxoAsPlutus", "u": ku, "w": {"s": sid, "rid": 199, "script": src[&sid], "datum": "wit", "dn": 504, "ex": ex(rng)}}));
+    }
     if rng.chance(1, 3) { ops.push(json!({"op": "AddOutput", "to": {"kind": "ent", "k": 11}, "value": {"coin_n": jn(1_500_000), "assets": []}})); }
     for i in (1..ops.len()).rev() { let j = rng.below(i as u64 + 1) as usize; ops.swap(i, j); }
     ops.extend(fixups);
     ops.push(json!({"op": "AddCollateral", "u": col}));
+    // an output that is referenced for the script it holds may serve as collateral too (only SPENT inputs must differ from reference inputs)
+    if rng.chance(1, 5) { if let Some(r) = src.values().find_map(|v| v.get("ref").and_then(|x| x.as_u64())) { ops.push(json!({"op": "AddCollateral", "u": r})); } }
     // the hash is computed after the last operation that adds an input: with coin selection that is after the selecting call
     if !select { ops.push(json!({"op": "CalcScriptDataHash", "langs": [1, 2, 3]})); }
     let to = json!({"kind": "ent", "k": 15});
@@ -870,7 +940,7 @@ pub fn gen_plutus(rng: &mut Rng) -> J {
     ops.push(json!({"op": "Build"}));
     if rng.chance(1, 3) { ops.push(json!({"op": "BuildAgain"})); }
     let pp = json!({"a": 44, "b": 155381, "cpb": 4310, "maxval": 5000, "maxtx": *rng.pick(&[16384u64, 16384, 16384, 3000, 2000, 1400, 1000]), "kd_n": jn(2_000_000), "pd_n": jn(500_000_000),
-                    "ex": [577, 10000, 721, 10000000], "ref": [*rng.pick(&[15u64, 15, 0, 44]), 1], "dedup": spent_holds_script});
+                    "ex": [577, 10000, 721, 10000000], "ref": [*rng.pick(&[15u64, 15, 0, 44]), 1], "dedup": spent_holds_script || rng.chance(1, 3)});
     let mut scn = json!({"pp": pp, "utxo": utxo, "ops": ops});
     match rng.below(8) { 0 => { scn["rerun"] = json!({"max_tx": rng.below(3)}); } 1 | 2 => { scn["rerun"] = json!({"fixed_fee": rng.below(1001)}); } _ => {} }
     scn
